@@ -4,6 +4,7 @@ import Driver.Gen
 import Driver.Read
 import Driver.Frame
 import Driver.Text
+import Driver.Cap
 /-! `modeld`: one operation per line on stdin, one canonical result per line on stdout. -/
 open Driver
 
@@ -14,6 +15,7 @@ def dispatch (line : String) : String :=
   | "read" :: rest => Driver.Read.run rest
   | "frame" :: rest => Driver.Frame.run rest
   | "text" :: rest => Driver.Text.run rest
+  | "cap" :: rest => Driver.Cap.run rest
   | "build" :: rest => Driver.Read.runBuild rest
   | ["case", _] => "case"
   | _ => "bad-op"
